@@ -131,7 +131,17 @@ def judge(req, obs):
         got_subj = sorted(c.get("subject", []))
         if got_subj != want_subj:
             add("csr-subject", "attrs=%s" % "+".join(ATTRS[a][0] for a in m["attrs"]), "subject attributes %s" % want_subj, "%s" % got_subj)
-        want_oid = sigalg_oid(m["kt"], m["digest"])
+        kt_eff = m["kt"]
+        if m["kp"] == "on-usable-other-type":
+            # which of the two keys is certified is not prescribed; the signature algorithm follows the key that was used
+            pre = None
+            for ph in obs.get("phases", []):
+                for p_ in ph.get("pre", []):
+                    if p_.get("op") == "install_pair":
+                        pre = p_["observed"]["key"].get("spki_sha256")
+            if pre and c.get("spki_sha256") == pre:
+                kt_eff = "ecdsa-p384" if m["kt"] != "ecdsa-p384" else "ecdsa-p256"
+        want_oid = sigalg_oid(kt_eff, m["digest"])
         if c.get("sig_alg_oid") != want_oid:
             add("csr-digest", "kt=%s|digest=%s" % (m["kt"], m["digest"]), "signature algorithm %s" % want_oid, str(c.get("sig_alg_oid")))
     if not success:
